@@ -81,6 +81,14 @@ func Extract() *fx.Group {
 	} else {
 		g.Missing("read_startBlock_expr")
 	}
+	// directory table constants (Model/Sqfs/Inode.lean)
+	dr := fx.Parse("filesystem/squashfs/directory.go")
+	v, ok = constVal(dr, "maxDirEntries")
+	put("maxDirEntries", v, ok)
+	v, ok = constVal(dr, "dirHeaderSize")
+	put("dirHeaderSize", v, ok)
+	v, ok = constVal(dr, "dirNameMaxSize")
+	put("dirNameMaxSize", v, ok)
 	// ---- region model (Model/Sqfs/Regions.lean) ---------------------------------------------------
 	// the order in which Finalize calls its writers, and the FinalizeOptions fields the layout code
 	// consults at all (outside the superblockFlags literal and outside assignments to them)
